@@ -33,6 +33,8 @@ type trkLog struct {
 	mu        sync.Mutex
 	pre, post []int
 	postFail  bool
+	preFail   bool // a configured pre-hook rejected
+	called    bool // the logic was entered (the request parsed)
 }
 
 type tHook struct {
@@ -52,6 +54,11 @@ func (h *tHook) run(ctx context.Context) (context.Context, error) {
 		h.log.post = append(h.log.post, h.idx)
 	}
 	h.log.mu.Unlock()
+	if h.phase == "pre" && (h.code == "Rc" || h.code == "Ri") {
+		h.log.mu.Lock()
+		h.log.preFail = true
+		h.log.mu.Unlock()
+	}
 	switch h.code {
 	case "Rc":
 		return ctx, bittorrent.ClientError("rejected by hook")
@@ -112,9 +119,19 @@ func (h *tHook) HandleScrape(ctx context.Context, req *bittorrent.ScrapeRequest,
 type waitLogic struct {
 	inner frontend.TrackerLogic
 	done  chan struct{}
+	lg    *trkLog
+}
+
+func (w *waitLogic) entered() {
+	if w.lg != nil {
+		w.lg.mu.Lock()
+		w.lg.called = true
+		w.lg.mu.Unlock()
+	}
 }
 
 func (w *waitLogic) HandleAnnounce(ctx context.Context, req *bittorrent.AnnounceRequest) (context.Context, *bittorrent.AnnounceResponse, error) {
+	w.entered()
 	return w.inner.HandleAnnounce(ctx, req)
 }
 func (w *waitLogic) AfterAnnounce(ctx context.Context, req *bittorrent.AnnounceRequest, resp *bittorrent.AnnounceResponse) {
@@ -122,6 +139,7 @@ func (w *waitLogic) AfterAnnounce(ctx context.Context, req *bittorrent.AnnounceR
 	w.done <- struct{}{}
 }
 func (w *waitLogic) HandleScrape(ctx context.Context, req *bittorrent.ScrapeRequest) (context.Context, *bittorrent.ScrapeResponse, error) {
+	w.entered()
 	return w.inner.HandleScrape(ctx, req)
 }
 func (w *waitLogic) AfterScrape(ctx context.Context, req *bittorrent.ScrapeRequest, resp *bittorrent.ScrapeResponse) {
@@ -168,14 +186,10 @@ func afterWait(w *waitLogic, expect bool) bool {
 	}
 }
 
-// while the Redis behind the store is switched off the tracker-level cases are emitted as fault.* lines: the model
-// has no notion of a failing store, these lines are judged on the implementation's observation alone
-func faultPrefix() string {
-	if rig != nil && rig.down {
-		return "fault."
-	}
-	return ""
-}
+// while the Redis behind the store is switched off (st.fail on=1) the tracker-level cases stay ordinary trk.* lines:
+// the model knows a failing store (StoreOps.down: the response hook answers with the fixed internal error, the swarm
+// is left alone), so the outage is compared line by line like everything else
+func faultPrefix() string { return "" }
 
 func scrapeCounts(ih []byte, v6 bool) string {
 	af := bittorrent.IPv4
@@ -204,7 +218,7 @@ func (tc trkCase) args() string {
 func (tc trkCase) logic(lg *trkLog) *waitLogic {
 	l := middleware.NewLogic(middleware.ResponseConfig{AnnounceInterval: time.Duration(tc.iv), MinAnnounceInterval: time.Duration(tc.miv)},
 		rig.pick(map[string]string{"inst": "0"}), mkHooks(tc.pre, "pre", lg), mkHooks(tc.post, "post", lg))
-	return &waitLogic{inner: l, done: make(chan struct{}, 4)}
+	return &waitLogic{inner: l, done: make(chan struct{}, 4), lg: lg}
 }
 
 // finishLogs turns the instrumented logs into the model's convention (built-in hooks get the next index).
@@ -213,7 +227,9 @@ func finishLogs(tc trkCase, lg *trkLog, handled, afterRan bool) string {
 	defer lg.mu.Unlock()
 	pre := append([]int{}, lg.pre...)
 	post := append([]int{}, lg.post...)
-	if handled {
+	if handled || (lg.called && !lg.preFail && len(pre) == len(tc.pre)) {
+		// the built-in response hook ran (last in the chain); when it is the one that failed — the store was
+		// unreachable — it still counts as run, like any failing hook
 		pre = append(pre, len(tc.pre))
 	}
 	if afterRan && !lg.postFail {
